@@ -78,6 +78,11 @@ def c09b(ctx, tu):
                 if ok:
                     for i, a in enumerate(args):
                         t = a
+                        # an explicitly constructed reference_wrapper around the forwarded parameter binds a
+                        # reference: no copy of the caller's object
+                        while isinstance(t, list) and t[:1] == ["ctor"] and len(t) > 3 and len(t[3]) == 1 and \
+                                erase(t[2]) == "std::reference_wrapper":
+                            t = t[3][0]
                         if lib.tree_name(t) is None or not lib.tree_name(t).startswith("std::forward"):
                             ok = False
                             why = "parameter %d is not perfectly forwarded into the tuple (a copy would be made)" % (i + 1)
